@@ -269,7 +269,27 @@ class Scales(Obligation):
                 tr_ = Tref * nd(trad)
                 cx.eq('RADE == ar * T_rad^4', s('RADE'), cx['ar'] * tr_ * tr_ * tr_ * tr_)
                 cx.eq('Fr attribute == c ar Tref^4 * nd (a flux: energy density times speed)', s('Fr'),
-                      cx['c'] * cx['ar'] * Tref ** 4 * nd('Fr'))
+                      cx['c'] * (cx['ar'] * (Tref ** 4 * nd('Fr'))))
+        if self.name != 'ie':
+            # dimensional total fluxes of the returned fields == common scale * nondimensional total fluxes (the quantities
+            # the C12.flux.* obligations prove constant along the profile), for arbitrary node values
+            P0, C0, c, ar = cx['P0'], cx['C0'], cx['c'], cx['ar']
+            for i in range(self.n):
+                nd = lambda k: cx['nd_' + k][i]
+                s = lambda k: cx['s_' + k][i]
+                rho, u, p, e, rade = s('Density'), s('Speed'), s('Pressure'), s('SIE'), s('RADE')
+                r, uu, pp, fr, tr_ = nd('Density'), nd('Speed'), nd('Pressure'), nd('Fr'), nd(trad)
+                edd = s('VEF') if self.name == 'Sn' else Fraction(1, 3) if cx.symbolic else 1. / 3.
+                edd_nd = nd('f') if self.name == 'Sn' else edd
+                frad = c * (ar * (Tref ** 4 * fr))
+                cx.eq('mass flux == rho0 a0 * nd mass flux', rho * u, rho0 * a0 * (r * uu))
+                cx.eq('total momentum flux == rho0 a0^2 * nd total momentum flux', rho * u * u + p + edd * rade,
+                      rho0 * a0 * a0 * (r * uu * uu + pp + P0 * edd_nd * tr_ * tr_ * tr_ * tr_),
+                      scale=sc(cx, rho * u * u, p, edd * rade))
+                cx.eq('total energy flux == rho0 a0^3 * nd total energy flux',
+                      u * (rho * u * u / 2 + rho * e + p) + frad,
+                      rho0 * a0 * a0 * a0 * (uu * (r * uu * uu / 2 + pp / (g - 1) + pp) + P0 * C0 * fr),
+                      scale=sc(cx, u * rho * u * u / 2, u * rho * e, u * p, frad))
         for k, a in mid_names.items():
             if 'mid_' + k in cx:
                 cx.eq('steady profile: %s(-x_node, 0) == node value' % k, cx['mid_' + k], cx['s_' + a][1])
@@ -315,6 +335,21 @@ class SciProxy(object):
         return stubs.fsolve_stub(func, x0, args, **kw)
 
 
+class CopyProxy(object):
+    """stands in for the name `copy' inside utils.py: symbolic reals are immutable values"""
+    import copy as _copy
+
+    @staticmethod
+    def deepcopy(x, memo=None):
+        if isinstance(x, (SymReal, SymBool)):
+            return x
+        return CopyProxy._copy.deepcopy(x)
+
+    @staticmethod
+    def copy(x):
+        return CopyProxy._copy.copy(x)
+
+
 def sym_int(x=0, *a):
     if isinstance(x, SymReal):
         if x.t.op == 'const':
@@ -349,17 +384,34 @@ def fake_make_2T_solution(self):
         self.Pr_precursor, self.Pr_relaxation = ypre, yrel
     elif 'FLD' in prob:
         self.Er_precursor, self.Er_relaxation = ypre, yrel
-        # the integration loop records (self.Lambda, self.R) as left behind by the rhs evaluation (fnctn.dEdx) of each
-        # step: evaluate the real dEdx at each table node and record them the same way
         fn = H.mod(UT).fnctn
-        for side, ys, ms in (('precursor', ypre, self.Mach_precursor), ('relaxation', yrel, self.Mach_relaxation)):
-            lam, rr = [], []
-            for y_, m_ in zip(ys, ms):
-                fn.dEdx(y_, m_, self)
-                lam.append(self.Lambda)
-                rr.append(self.R)
-            setattr(self, 'Lambda_' + side, lam)
-            setattr(self, 'R_' + side, rr)
+        if self.FLD_type == '1':
+            # the integration loop records (self.Lambda, self.R) as left behind by the rhs evaluation (fnctn.dEdx) of each
+            # step: evaluate the real dEdx at each table node and record them the same way (Wilson sum limiter: constants)
+            for side, ys, ms in (('precursor', ypre, self.Mach_precursor), ('relaxation', yrel, self.Mach_relaxation)):
+                lam, rr = [], []
+                for y_, m_ in zip(ys, ms):
+                    fn.dEdx(y_, m_, self)
+                    lam.append(self.Lambda)
+                    rr.append(self.R)
+                setattr(self, 'Lambda_' + side, lam)
+                setattr(self, 'R_' + side, rr)
+        else:
+            # other limiters: arbitrary flux-limiter values (Lambda, R) at every interior node, including the two nodes at
+            # the embedded shock where the real splice re-evaluates dEdx only for its side effect on (Lambda, R)
+            self.Lambda_precursor = [mk('Lp0'), mk('Lp1')]
+            self.R_precursor = [mk('Rp0'), mk('Rp1')]
+            self.Lambda_relaxation = [mk('Lr0'), mk('Lr1')]
+            self.R_relaxation = [mk('Rr0'), mk('Rr1')]
+            cnt = [0]
+
+            def dEdx_table(E, M, prof):
+                prof.Lambda, prof.R = mk('Lc%d' % cnt[0]), mk('Rc%d' % cnt[0])
+                cnt[0] += 1
+                return 0.0
+            with patched(fn, dEdx=dEdx_table):
+                self.splice_precursor_and_relaxation()
+            return
     self.splice_precursor_and_relaxation()
 
 
@@ -398,6 +450,13 @@ def near(cx, a, b, tol=1e-9):
     if cx.symbolic:
         return SymBool(T.eq(term_of(a), term_of(b)))
     return abs(a - b) <= tol * max(abs(a), abs(b), 1e-300)
+
+
+def sc(cx, *vals):
+    """scale of the numeric replay of a claim whose sides are sums with possible cancellation: the largest addend"""
+    if cx.symbolic:
+        return None
+    return [abs(float(v)) for v in vals] + [1e-300]
 
 
 def pos(cx, *vals):
@@ -446,7 +505,7 @@ class Flux(Obligation):
 
     def shim_extra(self):
         return {'ExactSolution': Recorder, 'print': H.quiet_print, 'scipy': SciProxy(_MK[0]), 'int': sym_int,
-                'max': stubs.sym_max, 'min': stubs.sym_min}
+                'max': stubs.sym_max, 'min': stubs.sym_min, 'copy': CopyProxy}
 
     def _params(self, mk):
         p = dict(M0=mk('M0'), rho0=mk('rho0'), gamma=mk('gamma'), Cv=mk('Cv'), Tref=mk('Tref'),
@@ -508,6 +567,11 @@ class Flux(Obligation):
              T.lt(T.mul(V('M0'), V('M0')), T.mul(T.mul(V('rho1'), V('rho1')), V('T1')))]
         if self.eps:
             d.append(T.gt(V('epsilon'), T.ZERO))
+        if self.fld and not self.variant.endswith('_1'):
+            for n in ('Lp0', 'Lp1', 'Lr0', 'Lr1', 'Lc0', 'Lc1'):
+                d += [T.gt(V(n), T.ZERO), T.le(V(n), T.const(Fraction(1, 3)))]
+            for n in ('Rp0', 'Rp1', 'Rr0', 'Rr1', 'Rc0', 'Rc1'):
+                d.append(T.ge(V(n), T.ZERO))
         return d
 
     def claims(self, cx):
@@ -545,7 +609,7 @@ class Flux(Obligation):
             okr = okP & pos(cx, Rn(rho))
             cx.eq('mass flux at the %s node == M0' % nm, Rn(rho * u), M0, when=okr)
             cx.eq('total momentum flux (with radiation pressure) at the %s node == upstream value' % nm,
-                  R0(rho * u * u + p + P0 * Pr), mom_up, when=okP)
+                  R0(rho * u * u + p + P0 * Pr), mom_up, when=okP, scale=sc(cx, rho * u * u, p, P0 * Pr))
             cx.eq('ideal gas: p == rho T / gamma at the %s node' % nm, Rn(p * g), Rn(rho * Tm), when=okr)
             cx.eq('ideal gas: e == T / (gamma (gamma-1)) at the %s node' % nm, Rn(e * g * (g - 1)), Rn(Tm), when=okr)
             cx.eq('local Mach number: Mach^2 T == u^2 at the %s node' % nm, Rn(Mi * Mi * Tm), Rn(u * u), when=okr)
@@ -557,7 +621,7 @@ class Flux(Obligation):
             Ra = Rn if i in (0, 5) else Rew(cx, Rn).let(K, 'k')
             kv = Ra(K)
             cx.eq('(a) energy flux at the %s node == C0 * (constant subtracted by dPdx there)' % nm,
-                  Ra(flux), C0v * kv, when=okr)
+                  Ra(flux), C0v * kv, when=okr, scale=sc(cx, u * rho * u * u / 2, u * rho * e, u * p, P0 * C0 * Fr))
             # (b) that constant is the upstream total energy flux
             if i < 3:
                 cx.eq('(b) constant subtracted by dPdx at the %s node == upstream total energy flux' % nm,
@@ -567,8 +631,14 @@ class Flux(Obligation):
                       (C0v * R5(K) - en_up) * rho1 * rho1, M0 * R0(cx['res_en']) if cx.symbolic else 0.0, when=okP,
                       scale=None if cx.symbolic else [en_up * rho1 * rho1])
             # (c) the property, given (a) and (b)
-            cx.eq('total energy flux (with radiation flux) at the %s node == upstream value' % nm,
-                  Ra(flux), en_up, when=okr & near(cx, C0v * kv, en_up) & (near(cx, Ra(flux), C0v * kv) if i == 5 else True))
+            if i == 5:
+                # (a) and (b) as hypotheses, both sides named: an instance of transitivity
+                fl, ck = (SymReal(T.var('flux5')), SymReal(T.var('C0K5'))) if cx.symbolic else (Ra(flux), C0v * kv)
+                cx.eq('total energy flux (with radiation flux) at the %s node == upstream value' % nm,
+                      fl, en_up, when=near(cx, fl, ck) & near(cx, ck, en_up))
+            else:
+                cx.eq('total energy flux (with radiation flux) at the %s node == upstream value' % nm,
+                      Ra(flux), en_up, when=okr & near(cx, C0v * kv, en_up))
             if i in (0, 5):
                 cx.eq('%s state in radiative equilibrium: T_rad == T_mat' % nm, Ra(Tr), Ra(Tm), when=okr)
                 cx.eq('%s state in radiative equilibrium: radiation flux == (4/3) beta Er' % nm, Ra(Fr * C0 * 3),
@@ -582,14 +652,160 @@ class Flux(Obligation):
                 cx.eq('coded M1 == speed1 / sqrt(T1), speed1 == M0 / rho1', cx['M1'] * cx.sqrt(T1) * rho1, M0)
 
 
+# ================================================================== equilibrium-diffusion profile
+
+class Wrap(object):
+    """a module stand-in that overrides a few names and delegates the rest (table stubs inside utils.py, both modes)"""
+
+    def __init__(self, base, **over):
+        self.__dict__['_base'] = base
+        self.__dict__['_over'] = over
+
+    def __getattr__(self, name):
+        o = self.__dict__['_over']
+        if name in o:
+            return o[name]
+        return getattr(self.__dict__['_base'], name)
+
+
+def sym_sum(seq, start=0):
+    """builtin sum that counts symbolic booleans by deciding them (the code counts zero entries of a masked table)"""
+    tot = start
+    for v in seq:
+        if isinstance(v, SymBool):
+            v = 1 if bool(v) else 0
+        tot = tot + v
+    return tot
+
+
+class FluxED(Obligation):
+    """ED_Solver(...) end to end with the temperature grid and the x(T) integration of make_ED_solution replaced by a table
+    of arbitrary interior temperatures / positions: the assembled nondimensional profile conserves the three total fluxes"""
+
+    def __init__(self, exps=True, ninner=1):
+        self.exps, self.ninner = exps, ninner
+        self.id = 'C12.flux.ED%s' % ('.exps' if exps else '')
+        ut, fn = H.mod(UT), H.mod(FN['ED'])
+        self.modules = [H.mod(RS), H.mod(RK), ut, fn]
+        cls = H.mod(RS).ED_Solver
+        self.functions = [cls.__init__, cls.setup_solver, H.mod(RK).RadShock.__init__, H.mod(RK).greyED_RadShock.ED_driver,
+                          ut.ED_ShockProfiles.__init__, ut.RadShockProfile.downstream_equilibrium,
+                          ut.ED_ShockProfiles.make_ED_solution, fn.rho, fn.dxdT, fn.sigma_t]
+        self.bounds = ('%d interior profile node(s) with arbitrary symbolic temperature in (1, T1) and position, plus the two end '
+                       'states; M0, rho0, gamma, Cv, Tref, sigA, sigS%s symbolic; x_shift (numpy.interp of the Mach table) arbitrary'
+                       % (ninner, ', the four cross-section exponents' if exps else ''))
+        self.max_paths = 16
+        self.timeout_s = 40
+        self.timeout_thorough_s = 600
+        self.skip_validation = True
+
+    def shim_extra(self):
+        return {'ExactSolution': Recorder, 'print': H.quiet_print, 'scipy': SciProxy(_MK[0]), 'int': sym_int,
+                'max': stubs.sym_max, 'min': stubs.sym_min, 'copy': CopyProxy, 'sum': sym_sum}
+
+    def build(self, mk):
+        mk = tolerant(mk)
+        _MK[0] = mk
+        _RES[:] = []
+        sym_ = Mode.symbolic(mk)
+        ut = H.mod(UT)
+        if sym_:
+            for m_ in self.modules:
+                if isinstance(m_.__dict__.get('scipy'), SciProxy):
+                    m_.__dict__['scipy']._mk = mk
+        p = dict(M0=mk('M0'), rho0=mk('rho0'), gamma=mk('gamma'), Cv=mk('Cv'), Tref=mk('Tref'), sigA=mk('sigA'), sigS=mk('sigS'))
+        if self.exps:
+            p.update(expDensity_abs=mk('eDa'), expTemp_abs=mk('eTa'), expDensity_scat=mk('eDs'), expTemp_scat=mk('eTs'))
+        n = self.ninner
+
+        def linspace(a, b, num, **k):
+            return H.arr([mk('Ta%d' % i) for i in range(n)])
+
+        def odeint(f, y0, ts, **k):
+            col = H.arr([mk('xa%d' % i) for i in range(n)])
+            return col.reshape((n, 1))
+
+        def interp(x, xp, fp, **k):
+            return mk('xshift')
+        base_np, base_sp = ut.numpy, ut.scipy
+        sp_int = Wrap(base_sp.integrate, odeint=odeint)
+        with patched(ut, numpy=Wrap(base_np, linspace=linspace, interp=interp), scipy=Wrap(base_sp, integrate=sp_int)):
+            s = H.mod(RS).ED_Solver(**p)
+        prob = s._ED_Solver__prob
+        prof = prob.ED_profile
+        out = {'M0': p['M0'], 'gamma': p['gamma'], 'P0': prob.P0, 'C0': prob.C0, 'rho1': prof.rho1, 'T1': prof.T1,
+               'M1': prof.M1, 'speed1': prof.speed1}
+        for k in ('Fr', 'Mach', 'Density', 'Speed', 'Pressure', 'Tm', 'SIE'):
+            out[k] = getattr(prof, k)
+        out['res_mom'], out['res_en'] = (_RES[0], _RES[1]) if sym_ else (0.0, 0.0)
+        return out
+
+    def domain(self, V):
+        one = T.ONE
+        d = [T.gt(V('M0'), one), T.gt(V('rho0'), T.ZERO), T.gt(V('gamma'), one), T.gt(V('Cv'), T.ZERO), T.gt(V('Tref'), T.ZERO),
+             T.gt(V('sigA'), T.ZERO), T.ge(V('sigS'), T.ZERO), T.gt(V('rho1'), T.ZERO), T.gt(V('T1'), one),
+             T.lt(T.mul(V('M0'), V('M0')), T.mul(T.mul(V('rho1'), V('rho1')), V('T1')))]
+        for i in range(self.ninner):
+            d += [T.gt(V('Ta%d' % i), one), T.lt(V('Ta%d' % i), V('T1')), T.gt(V('xa%d' % i), T.ZERO)]
+        return d
+
+    def claims(self, cx):
+        M0, g, P0, C0 = cx['M0'], cx['gamma'], cx['P0'], cx['C0']
+        rho1, T1 = cx['rho1'], cx['T1']
+        R0 = Rew(cx).let(P0, 'P0v').let(C0, 'C0v')
+        P0v, C0v = R0(P0), R0(C0)
+        mom_up = M0 * M0 + 1 / g + P0v / 3
+        en_up = M0 * (M0 * M0 / 2 + 1 / (g * (g - 1)) + 1 / g) + P0v * M0 * 4 / 3
+        okP = pos(cx, P0v, C0v)
+        last = self.ninner + 1
+        for i in range(last + 1):
+            nm = 'upstream' if i == 0 else 'downstream' if i == last else 'interior'
+            rho, u, p, e, Tm, Mi, Fr = (cx[k][i] for k in ('Density', 'Speed', 'Pressure', 'SIE', 'Tm', 'Mach', 'Fr'))
+            T4 = Tm * Tm * Tm * Tm
+            cx.eq('mass flux at the %s node == M0' % nm, R0(rho * u), M0, when=okP)
+            cx.eq('ideal gas: p == rho T / gamma at the %s node' % nm, R0(p * g), R0(rho * Tm), when=okP)
+            cx.eq('ideal gas: e == T / (gamma (gamma-1)) at the %s node' % nm, R0(e * g * (g - 1)), R0(Tm), when=okP)
+            cx.eq('local Mach number: Mach^2 T == u^2 at the %s node' % nm, R0(Mi * Mi * Tm), R0(u * u), when=okP)
+            if i == last:
+                # the downstream end state is the fsolve root; jump conditions as identities in the contract residuals
+                cx.eq('downstream density == rho1, temperature == T1', R0(rho - rho1) + R0(Tm - T1), 0, when=okP)
+                cx.eq('jump: total momentum flux downstream - upstream == res_mom / rho1 (fsolve contract: res_mom == 0)',
+                      (R0(rho * u * u + p + P0 * T4 / 3) - mom_up) * rho1, R0(cx['res_mom']) if cx.symbolic else 0.0, when=okP,
+                      scale=sc(cx, rho1 * mom_up))
+                eq_flux = u * (rho * u * u / 2 + rho * e + p) + P0 * u * T4 * 4 / 3
+                cx.eq('jump: total energy flux (equilibrium radiation flux 4/3 u T^4) downstream - upstream == M0 res_en / rho1^2',
+                      (R0(eq_flux) - en_up) * rho1 * rho1, M0 * R0(cx['res_en']) if cx.symbolic else 0.0, when=okP,
+                      scale=sc(cx, rho1 * rho1 * en_up))
+                cx.eq('coded M1 == speed1 / sqrt(T1), speed1 == M0 / rho1', cx['M1'] * cx.sqrt(T1) * rho1, M0)
+                continue
+            cx.eq('total momentum flux (radiation pressure T^4/3) at the %s node == upstream value' % nm,
+                  R0(rho * u * u + p + P0 * T4 / 3), mom_up, when=okP, scale=sc(cx, rho * u * u, p, P0 * T4 / 3))
+            if i == 0:
+                cx.eq('upstream density == 1 (rho0 after scaling)', R0(rho), 1, when=okP)
+                cx.eq('upstream temperature == 1 (Tref after scaling)', R0(Tm), 1, when=okP)
+                continue
+            # interior node: energy with the coded radiation flux; density generalised (momentum balance not needed here)
+            Rn = Rew(cx, R0).let(rho, 'r')
+            flux = u * (rho * u * u / 2 + rho * e + p) + P0 * C0 * Fr
+            cx.eq('total energy flux (with radiation flux) at the %s node == upstream value' % nm, Rn(flux), en_up,
+                  when=okP & pos(cx, Rn(rho)), scale=sc(cx, u * rho * u * u / 2, u * rho * e, u * p, P0 * C0 * Fr))
+
+
 def obligations(tier):
     obs = []
     for name in SOLVERS:
         obs.append(Scales(name))
         obs.append(Shift(name, defaults=False, n=2 if tier == 'quick' else 3))
         obs.append(Shift(name, defaults=True, n=2 if tier == 'quick' else 3))
-    for v in VARIANTS:
-        obs.append(Flux(v))
+    obs.append(FluxED())
+    for v in ('nED', 'LM_nED', 'FLD_1'):
+        obs.append(Flux(v, exps=True, eps=True))
+    obs.append(Flux('FLD_2'))
+    for v in ('FLD_poly', 'FLD_LP'):
+        obs.append(Flux(v, nodes=(0, 1, 4, 5) if tier == 'quick' else (0, 1, 2, 3, 4, 5)))
+    if tier == 'thorough':
+        for v in ('FLD_2', 'FLD_poly', 'FLD_LP'):
+            obs.append(Flux(v, exps=True, eps=True))
     for o in obs:
         o.tier = tier
     return obs
